@@ -848,6 +848,7 @@ def mv_eq(ctx):
     false_s = ret_sites_by(it, lambda v: v[0] == 'const' and v[2] == 'bool' and v[1] == 0)
     true_s = ret_sites_by(it, lambda v: v[0] == 'const' and v[2] == 'bool' and v[1] == 1)
     scans = {}
+    atom_hits = {}
 
     def atom(t):
         # `count(filter(iter(X.vals), |d| d == outer item))`: how often the outer item occurs on the other side (0, 1, 2 = more)
@@ -868,6 +869,7 @@ def mv_eq(ctx):
                         os_ = param_path(iter_source(as_item(outer[0]))[0])
                         if os_ and os_[0] != inner_side[0] and os_[1] == (vf,) and whole_iteration_over(as_item(outer[0]), os_[0], (vf,)):
                             scans[os_[0]] = True
+                            atom_hits[os_[0]] = True
                             return ('map', 'found%d' % os_[0], {0: 0, 1: 1, 2: 2})
         return None
     res = {}
@@ -899,5 +901,28 @@ def mv_eq(ctx):
             errs.append('a value of self missing from other does not make the registers unequal')
         if not res[(0, 1)][0] or not res[(1, 0)][0]:
             errs.append('a value present on one side only does not make the registers unequal')
+        # .. on every path: once some value has no equal on the other side, `true` is out of reach
+        if not errs:
+            from .loops import loops_of
+            fsites = [b for b, _ in false_s]
+            for lp in loops_of(it):
+                side = 1 if lp.whole_over(1, (vf,)) else 2 if lp.whole_over(2, (vf,)) else None
+                if side is None or not any(b in lp.blocks or True for b in fsites):
+                    continue
+                # an iteration that finds no equal for its value ends the comparison with `false`, on every path; nothing else
+                # cuts the scan short
+                rc0_ = Reach(facts, body, Evaluator(facts, bool_atom=atom, assumption={'found%d' % side: 0}))
+                panics_ = [bi for bi, blk in enumerate(body.blocks) if not blk.get('cleanup') and blk['term'].get('k') == 'call'
+                           and blk['term'].get('target') is None]
+                if atom_hits.get(side) and (not lp.must(rc0_, fsites) or any(b in lp.inner(rc0_) for b in panics_)):
+                    errs.append('a value of side %d without an equal on the other side does not always end the comparison with false '
+                                '(a path goes on, or panics)' % side)
+                rc1_ = Reach(facts, body, Evaluator(facts, bool_atom=atom, assumption={'found%d' % side: 1}))
+                inner_ = lp.inner(rc1_)
+                edges_ = rc1_.rel_edges(lp.start, (lp.head,))
+                leaving = [e for e in lp.early_exits() if e in inner_ and any(
+                    y not in lp.blocks and body.blocks[y]['term']['k'] != 'unreachable' for y in edges_.get(e, []))]
+                if atom_hits.get(side) and leaving:
+                    errs.append('the scan over side %d can stop before every value was looked for on the other side' % side)
     ctx.check(not errs, 'eq', body, 'order-insensitive set equality over both sides', errs[0] if errs else '',
               details={'(times an own value occurs in other, times a value of other occurs in own) -> (false may, true may)': {str(k): v for k, v in res.items()}})
